@@ -234,7 +234,7 @@ def qha_unit(u, res):
     import phonopy.qha.core as qc
     _, el_ndim, with_p, t_max_idx = u
     nT, nV = 5, 5
-    temps = np.array([0.0, 100.0, 200.0, 300.0, 400.0])
+    temps = np.array([0.0, 100.0, 250.0, 300.0, 420.0])          # ascending but unevenly spaced (all the documentation requires)
     vols = np.array([60.0, 62.0, 64.0, 66.0, 68.0])
     t_max = None if t_max_idx is None else float(temps[t_max_idx])
     els = harness.reals("el", nV if el_ndim == 1 else nT * nV)
@@ -354,7 +354,7 @@ def qha_unit(u, res):
 def replay_beta():
     """concrete: equilibrium volumes exactly quadratic in T; thermal expansion must be the central difference / V"""
     import phonopy.qha.core as qc
-    temps = np.array([0.0, 100.0, 200.0, 300.0, 400.0]); vols = np.array([60.0, 62.0, 64.0, 66.0, 68.0])
+    temps = np.array([0.0, 100.0, 250.0, 300.0, 420.0]); vols = np.array([60.0, 62.0, 64.0, 66.0, 68.0])
     old = qc.fit_to_eos
     calls = []
 
@@ -380,7 +380,7 @@ def replay_cp():
     """concrete: Gibbs energies that are exactly quadratic in T give C_P = -T G'' at every interior point"""
     import phonopy.qha.core as qc
     from phonopy.units import EvTokJmol
-    temps = np.array([0.0, 100.0, 200.0, 300.0, 400.0]); vols = np.array([60.0, 62.0, 64.0, 66.0, 68.0])
+    temps = np.array([0.0, 100.0, 250.0, 300.0, 420.0]); vols = np.array([60.0, 62.0, 64.0, 66.0, 68.0])
     a, b, c = -3e-6, 2e-4, -1.0
     old = qc.fit_to_eos
     calls = []
